@@ -16,7 +16,7 @@ def aero_surface(mesh, name="wing", symmetry=True, **kw):
 
 
 def build_aero(surfaces, v=248.136, alpha=5.0, beta=0.0, Mach=0.84, re=1.0e6, rho=0.38, cg=(0.0, 0.0, 0.0),
-               compressible=False, rotational=False, omega=None, height_agl=8000.0, geom=True, S_ref_total=None, setup_kw=None):
+               compressible=False, rotational=False, omega=None, height_agl=8000.0, geom=False, S_ref_total=None, setup_kw=None):
     """An AeroPoint fed by Geometry groups (geom=True) or directly by def_mesh/t_over_c (geom=False)."""
     from openaerostruct.geometry.geometry_group import Geometry
     from openaerostruct.aerodynamics.aero_groups import AeroPoint
@@ -38,6 +38,11 @@ def build_aero(surfaces, v=248.136, alpha=5.0, beta=0.0, Mach=0.84, re=1.0e6, rh
         name = s["name"]
         if geom:
             prob.model.add_subsystem(name, Geometry(surface=s))
+        else:
+            ny = s["mesh"].shape[1]
+            ivc.add_output(name + "_def_mesh", val=np.array(s["mesh"], dtype=float), units="m")
+            toc = s.get("t_over_c_cp", np.array([0.12]))
+            ivc.add_output(name + "_t_over_c", val=np.ones(ny - 1) * float(np.real(np.asarray(toc).ravel()[0])))
     kw = {}
     if compressible:
         kw["compressible"] = True
@@ -54,6 +59,10 @@ def build_aero(surfaces, v=248.136, alpha=5.0, beta=0.0, Mach=0.84, re=1.0e6, rh
             prob.model.connect(name + ".mesh", "aero." + name + ".def_mesh")
             prob.model.connect(name + ".mesh", "aero.aero_states." + name + "_def_mesh")
             prob.model.connect(name + ".t_over_c", "aero." + name + "_perf.t_over_c")
+        else:
+            prob.model.connect(name + "_def_mesh", "aero." + name + ".def_mesh")
+            prob.model.connect(name + "_def_mesh", "aero.aero_states." + name + "_def_mesh")
+            prob.model.connect(name + "_t_over_c", "aero." + name + "_perf.t_over_c")
     if S_ref_total is not None:
         ivc.add_output("S_ref_total", val=S_ref_total, units="m**2")
         prob.model.connect("S_ref_total", "aero.S_ref_total")
